@@ -39,6 +39,7 @@ def nontrivial(case):
 
 
 def post(chk, recs, cases):
+    post_strata(chk, recs)
     g = [r["g"] for r in recs if "g" in r]
     if not g:
         return
@@ -66,6 +67,51 @@ def post(chk, recs, cases):
                        "stats": chk.cov["exploration_family_G"],
                        "input": {"instances": [{"problem": x["problem"], "status": x["status"], "iterations": x["iterations"]} for x in fails[:20] if x.get("problem")]},
                        "replay_cmd": "./check C06 --replay <this file>"})
+
+
+def critical_failures_at(n, sig):
+    k = int(n * (1 - RATE))
+    while binom_tail(n, 1 - RATE, k) > sig:
+        k += 1
+    return max(k, 1)
+
+
+# p95 iteration envelopes per stratum: measured on the unchanged tree over seeds 1..3
+# (exp 12-13, genpow 19-20, lp_qp 10, pow 13, psd 11-12, soc 11-12, soc_small 9-10) + 30 %
+STRATUM_P95 = {"exp": 17, "genpow": 26, "lp_qp": 14, "pow": 17, "psd": 16, "soc": 16, "soc_small": 13}
+
+
+def post_strata(chk, recs):
+    """'across all supported cone types': the same one-sided binomial test per stratum of
+    pure single-kind problems (Bonferroni over the strata)."""
+    gs = [r["gs"] for r in recs if "gs" in r]
+    if not gs:
+        return
+    names = sorted(set(x["stratum"] for x in gs))
+    out = {}
+    for nm in names:
+        xs = [x for x in gs if x["stratum"] == nm]
+        fails = [x for x in xs if x["status"] != 1]
+        its = sorted(x["iterations"] for x in xs if x["status"] == 1)
+        kcrit = critical_failures_at(len(xs), SIGNIFICANCE / max(len(names), 1))
+        out[nm] = {"instances": len(xs), "solved": len(xs) - len(fails), "critical_failures": kcrit,
+                   "iterations_p95": its[int(len(its) * 0.95)] if its else None,
+                   "by_status": {str(k): sum(1 for x in xs if x["status"] == k) for k in sorted(set(x["status"] for x in xs))}}
+        out[nm]["p95_envelope"] = STRATUM_P95.get(nm)
+        p95 = out[nm]["iterations_p95"]
+        if len(xs) >= 100 and p95 is not None and nm in STRATUM_P95 and p95 > STRATUM_P95[nm]:
+            chk.known_or_violation("stratum-p95:" + nm, {"property": "C06", "kind": "family-G stratum iteration envelope", "stratum": nm,
+                           "what": "95th percentile of iteration counts of pure %s problems is %d > envelope %d" % (nm, p95, STRATUM_P95[nm]),
+                           "stats": out[nm], "replay_cmd": "./check C06"},
+                           "pure %s problems of family G: p95 iterations %d" % (nm, p95))
+        if len(xs) >= 100 and len(fails) >= kcrit:
+            chk.known_or_violation("stratum:" + nm, {"property": "C06", "kind": "family-G stratum statistics", "stratum": nm,
+                           "what": "pure %s problems of the planted family are not solved at the stated rate" % nm,
+                           "stats": out[nm],
+                           "input": {"instances": [{"problem": x["problem"], "status": x["status"], "iterations": x["iterations"]} for x in fails[:20] if x.get("problem")]},
+                           "replay_cmd": "./check C06 --replay <this file>"},
+                           "pure %s problems of family G: %d of %d not solved" % (nm, len(fails), len(xs)))
+    chk.cov["exploration_family_G_strata"] = out
 
 
 SPEC = {
